@@ -8,7 +8,7 @@ SPEC = os.path.join(os.path.dirname(os.path.dirname(os.path.abspath(__file__))),
 DEFAULT = dict(
     AckMode='"shaped"', ThrMode='"fixed"', EmptyMode='"fixed"', RstMode='"pinned"',
     CfgSet="OneCfg", SameCfg="TRUE", Openers='{"A"}', MaxOpens=1, Ids="{1}", Hosts='{"h0"}',
-    MaxWrites=0, Lens="{1}", ReadMax="{4}", Closers="{}", MuxDroppers="{}", Cancellers="{}", DgSenders="{}", MaxDgrams=0,
+    MaxWrites=0, Writers='{"A", "B"}', Lens="{1}", ReadMax="{4}", Closers="{}", MuxDroppers="{}", Cancellers="{}", DgSenders="{}", MaxDgrams=0,
     Binders="{}", MaxBinds=0, Faults="{}", AdvMsgs="{}", MaxAdv=0, Bridgers="{}", MaxHandles=2, MaxCtr=3,
 )
 INV = "NoViolation TypeOK AckSound QueueBound InitialCredit ExactlyOne TargetCarried BoundedRetry Released DoneResolved"
@@ -32,10 +32,10 @@ CONFIGS = {
     "MC_Close_rstfixed": dict(RstMode='"fixed"', CfgSet="CloseCfgs", MaxWrites=2, Lens="{1, 0}", Closers='{"A", "B"}', MaxHandles=1, MaxCtr=1),
     # C06: re-opening the same flow id after the first stream was closed in every way
     "MC_Reuse_q": dict(CfgSet="TinyCfg", MaxOpens=2, Closers='{"A", "B"}', MaxHandles=2, MaxCtr=2),
-    "MC_Reuse": dict(CfgSet="TinyCfg", MaxOpens=2, MaxWrites=1, Closers='{"A", "B"}', MaxHandles=2, MaxCtr=2),
+    "MC_Reuse": dict(CfgSet="TinyCfg", MaxOpens=2, MaxWrites=1, Writers='{"A"}', Closers='{"A", "B"}', MaxHandles=2, MaxCtr=2),
     # C08: every end-of-connection cause at every reachable state
     "MC_Teardown_q": dict(CfgSet="TinyCfg", MaxWrites=1, Faults='{"cutsrc", "endsrc", "cutsink", "softcut"}', MuxDroppers='{"A", "B"}', MaxHandles=1, MaxCtr=1),
-    "MC_Teardown": dict(CfgSet="CloseCfgs", MaxWrites=2, Closers='{"A"}', Faults='{"cutsrc", "endsrc", "cutsink", "softcut"}', MuxDroppers='{"A", "B"}', MaxHandles=1, MaxCtr=1),
+    "MC_Teardown": dict(CfgSet="TinyCfg", MaxWrites=1, Closers='{"A"}', Faults='{"cutsrc", "endsrc", "cutsink", "softcut"}', MuxDroppers='{"A", "B"}', MaxHandles=1, MaxCtr=1),
     # C07 / C15 / C08: a pending stream or bind request is given up (timeout, select!) at every point
     "MC_Cancel_q": dict(CfgSet="CancelCfgs", Openers='{"A"}', MaxOpens=1, Binders='{"A"}', MaxBinds=1, Cancellers='{"A"}', MaxWrites=0, MaxHandles=1, MaxCtr=2, Ids="{1, 2}"),
     "MC_Cancel": dict(CfgSet="BindCfgs", Openers='{"A", "B"}', MaxOpens=1, Binders='{"A"}', MaxBinds=1, Cancellers='{"A"}', MaxWrites=1, MaxHandles=2, MaxCtr=3, Ids="{1, 2}"),
